@@ -140,7 +140,60 @@ _MAXN = 4 if _os.environ.get('VERIF_TIER') == 'thorough' else 3      # chunk lis
 TEXTS = T.one_of(*[TEXT(n) for n in range(_MAXN)])
 BOUND = T.one_of(T.none, T.int)
 
-CONTRACTS = [
+# ---- unbounded tier: chunk lists of ANY length (symbolic n); loops carry inductive invariants; the spec folds
+# offset/total are prefix sums with proved monotonicity lemma (pyvc/folds.py)
+from pyvc import folds as _folds
+import z3 as _z3
+_OFFSET = _folds.PrefixSum('offset', lambda L, zi: _z3.Length(L.funcs['text'][0](zi)))
+_PLAIN = _folds.PrefixConcat('plain', lambda L, zi: L.funcs['text'][0](zi), _OFFSET)
+FOLD_MODELS = {'offset': _folds.prefix_model(_OFFSET), 'total': _folds.whole_model(_OFFSET),
+               'plain': _folds.whole_model(_PLAIN), 'color_at': _folds.locate_model(_OFFSET, 'c_prefix')}
+
+
+def _chunk_pos_result(I, name):
+    """(chunk id, position in chunk) or (None, None)"""
+    from pyvc.values import SInt
+    if I.branch(I.st.fresh_bool(name + '.found')):
+        return (SInt(I.st.fresh_int(name + '.chunk_id')), SInt(I.st.fresh_int(name + '.chunk_pos')))
+    return (None, None)
+
+
+def ANYTEXT():
+    return T.obj('ak.color:CHText', scrlen=T.int,
+                 chunks=T.symobjlist('ak.color:_CHTextChunk', c_prefix=T.str, text=T.str, c_suffix=T.str))
+
+
+UNBOUNDED_CONTRACTS = [
+    Contract(M, 'CHText._get_chunk_pos', name='CHText._get_chunk_pos/any_length', prop=PROP, spec_globals=G, level='sup',
+             params={'self': T.one_of(ANYTEXT()), 'position': T.int},
+             requires=["self.scrlen == total(self.chunks)"],
+             ensures={
+                 'in_range': "(result[0] is not None) == (0 <= position < self.scrlen)",
+                 'chunk_exists': "result[0] is None or 0 <= result[0] < len(self.chunks)",
+                 'decomposition': "result[0] is None or (offset(self.chunks, result[0]) + result[1] == position "
+                                  "and 0 <= result[1] < len(self.chunks[result[0]].text))",
+                 'none_pair': "result[0] is not None or result[1] is None",
+             },
+             result_spec=T.custom('(int, int) | (None, None)', _chunk_pos_result), eager_ensures=True,
+             invariants={0: {'inv': "position == old(position) - offset(self.chunks, __i) and position >= 0"}},
+             symlist_models=FOLD_MODELS,
+             raises={}, modifies=[]),
+    Contract(M, 'CHText.__getitem__', name='CHText.__getitem__/index/any_length', prop=PROP, spec_globals=G, level='top',
+             params={'self': T.one_of(ANYTEXT()), 'index': T.int},
+             requires=["self.scrlen == total(self.chunks)"],
+             ensures={
+                 'char': "plain(result.chunks) == plain(self.chunks)[index]",
+                 'color': "len(result.chunks) == 1 and result.chunks[0].c_prefix == "
+                          "color_at(self.chunks, index if index >= 0 else self.scrlen + index)",
+                 'wf': "wf(result)",
+                 'in_range': "-self.scrlen <= index < self.scrlen",
+             },
+             raises={'index_error': ((IndexError,), "not (-self.scrlen <= index < self.scrlen)")},
+             symlist_models=FOLD_MODELS,
+             modifies=[]),
+]
+
+CONTRACTS = UNBOUNDED_CONTRACTS + [
     Contract(M, 'CHText._get_chunk_pos', prop=PROP, spec_globals=G, level='sup',
              params={'self': TEXTS, 'position': T.int},
              requires=["wf(self)"],
@@ -297,9 +350,31 @@ CHText_cls = akc.CHText
 
 BOUNDED_SYMBOLIC = {'CHText.join': 3, 'CHText.__init__': 2, 'CHText._append_chunk': 3, 'CHText.__iadd__': 2, 'CHText.__add__': 2, 'CHText.__radd__': 2,
                     'CHText.__eq__/text': 2, 'CHText.__eq__/str': 3, 'CHText.fixed_len': 2, 'CHText._get_chunk_pos': 3, 'CHText.__getitem__/index': 3, 'CHText.__getitem__/slice': 3}
-USES = {}
+USES = {'CHText.__getitem__/index/any_length': ['CHText._get_chunk_pos/any_length']}
 ASSUMED_LIBRARY = []
 CANARIES = [
+    {'name': 'anylen_index_takes_first_char_of_chunk', 'module': M, 'function': 'CHText.__getitem__',
+     'verify': 'CHText.__getitem__/index/any_length',
+     'old': 'return type(self)(cur_chunk.clone(cur_chunk.text[chunk_pos]))',
+     'new': 'return type(self)(cur_chunk.clone(cur_chunk.text[0]))',
+     'expect': 'C08.CHText.__getitem__/index/any_length.char'},
+    {'name': 'anylen_index_colour_of_first_chunk', 'module': M, 'function': 'CHText.__getitem__',
+     'verify': 'CHText.__getitem__/index/any_length',
+     'old': 'return type(self)(cur_chunk.clone(cur_chunk.text[chunk_pos]))',
+     'new': 'return type(self)(self.chunks[0].clone(cur_chunk.text[chunk_pos]))',
+     'expect': 'C08.CHText.__getitem__/index/any_length.color'},
+    {'name': 'anylen_chunk_boundary_off_by_one', 'module': M, 'function': 'CHText._get_chunk_pos',
+     'verify': 'CHText._get_chunk_pos/any_length',
+     'old': 'if position < len(chunk.text):', 'new': 'if position <= len(chunk.text):',
+     'expect': 'C08.CHText._get_chunk_pos/any_length.decomposition'},
+    {'name': 'anylen_position_not_advanced', 'module': M, 'function': 'CHText._get_chunk_pos',
+     'verify': 'CHText._get_chunk_pos/any_length',
+     'old': 'position -= len(chunk.text)', 'new': 'position -= len(chunk.text) - 1',
+     'expect': 'C08.CHText._get_chunk_pos/any_length.loop0.inv_preserved'},
+    {'name': 'anylen_zero_rejected', 'module': M, 'function': 'CHText._get_chunk_pos',
+     'verify': 'CHText._get_chunk_pos/any_length',
+     'old': 'if position < 0:', 'new': 'if position <= 0:',
+     'expect': 'C08.CHText._get_chunk_pos/any_length.in_range'},
     {'name': 'slice_takes_one_char_too_many', 'module': M, 'function': 'CHText.__getitem__', 'verify': 'CHText.__getitem__/slice',
      'old': 'new_chunks.append(cur_chunk.clone(cur_chunk.text[:remain_len]))',
      'new': 'new_chunks.append(cur_chunk.clone(cur_chunk.text[:remain_len + 1]))',
